@@ -248,14 +248,52 @@ def _model_value(m, zc):
         return None
 
 
+def eliminate(conds):
+    """Solve top-level equalities that are linear in a variable with a non-zero monomial coefficient
+    and substitute (equivalence preserving).  Returns (conds', [(var_atom, expr)])."""
+    conds = list(conds)
+    subs = []
+    progress = True
+    while progress:
+        progress = False
+        for k, c in enumerate(conds):
+            if c.kind != "eq0":
+                continue
+            sol = T.linear_solution(c.args[0])
+            if sol is None:
+                continue
+            v, expr = sol
+            memo = {}
+            rest = conds[:k] + conds[k + 1:]
+            try:
+                new = [T.substitute(x, {v: expr}, memo) for x in rest]
+                nsubs = [(a, T.substitute(e, {v: expr}, memo)) for a, e in subs]
+            except (ZeroDivisionError, T.Unsupported):
+                continue
+            conds, subs = new, nsubs
+            subs.append((v, expr))
+            progress = True
+            break
+    return conds, subs
+
+
 def solve(conds, timeout_s=60, exp_axioms=True, pair_axioms=True, want_smt2=False, tactic=None,
-          extra=()) -> Result:
+          extra=(), elim=True) -> Result:
     """Decide the conjunction of BoolT `conds`."""
     conds = [c for c in conds if not (c.kind == "const" and c.args[0])]
     if any(c.kind == "const" and not c.args[0] for c in conds):
         return Result("unsat", 0.0)
     t0 = time.time()
-    low = Lowering(conds, exp_axioms, pair_axioms)
+    subs = []
+    if elim:
+        flat = []
+        for c in conds:
+            flat.extend(c.args if c.kind == "and" else [c])
+        conds, subs = eliminate(flat)
+        conds = [c for c in conds if not (c.kind == "const" and c.args[0])]
+        if any(c.kind == "const" and not c.args[0] for c in conds):
+            return Result("unsat", time.time() - t0)
+    low = Lowering(list(conds) + [e for _, e in subs], exp_axioms, pair_axioms)
     zs = [low.b(c) for c in conds]
     s = z3.Solver() if tactic is None else z3.Then(*tactic).solver() if isinstance(tactic, (list, tuple)) \
         else z3.Tactic(tactic).solver()
@@ -273,6 +311,8 @@ def solve(conds, timeout_s=60, exp_axioms=True, pair_axioms=True, want_smt2=Fals
         for at in low.atoms:
             if at.kind == "var":
                 model[at.args[0]] = _model_value(m, low.z[at.id])
+        for v, e in subs:
+            model[v.args[0]] = _model_value(m, low.p(e))
     return Result(verdict, dt, model, smt2, {"atoms": len(low.atoms), "side": len(low.side)})
 
 
